@@ -107,7 +107,7 @@ PARSER_OBJ_TABLES = {'last_data_newthread': ('TraceDataNewthread', ('tid', 'pid'
 PARSER_KEEP = ('handlers', 'qualifiers_actions', 'on_going_events', 'on_going_traces')
 
 
-def make_parser(it, ctx, tag='p'):
+def make_parser(it, ctx, tag='p', guard_pairing=False):
     """an arbitrary reachable TracesParser: the real __init__ is executed to learn the attributes and
     their shapes; every dict-valued attribute then holds an arbitrary table, every None-initialised
     attribute an arbitrary optional object (state invariant of the parser, by shape)."""
@@ -138,6 +138,11 @@ def make_parser(it, ctx, tag='p'):
             else:
                 o = ForeignObj('%s.%s' % (tag, nm))
             p.fields[nm] = SOpt(z3.Bool('%s.%s.present' % (tag, nm)), o)
+    if guard_pairing:
+        # a decoder's frame: the pairing tables belong to the pairing operations (C04/C05), no decoder may read or write them
+        for nm in ('on_going_events', 'on_going_traces'):
+            if nm in p.fields:
+                p.fields[nm] = GuardedState('the decoder touches the pairing table %s' % nm)
     p.tag = tag
     p.initial_fields = dict(p.fields)
     return p
@@ -291,7 +296,7 @@ def explore_decoder(sess, name, handler, render=True, extra_setup=None, window_n
     def thunk(ctx):
         vn.calls = []
         w = Window(it, ctx)
-        p = make_parser(it, ctx)
+        p = make_parser(it, ctx, guard_pairing=True)
         w.assume_shape(z3.IntVal(intern_str(window_name or name)), p.fields['trace_codes'])
         holder['w'], holder['p'] = w, p
         if extra_setup:
